@@ -18,6 +18,9 @@ pub enum KeyKind {
     /// above ring's limit (4096 bits), within aws-lc-rs's (8192 bits)
     Rsa6144,
     Rsa8192,
+    /// a modulus of 2047 bits (top byte below 0x80: 256 octets without a sign octet); ring takes it (it rounds the
+    /// length up to whole octets), aws-lc-rs does not
+    Rsa2047,
 }
 
 #[derive(Clone, Copy, Debug, PartialEq, Eq, Hash)]
@@ -48,7 +51,7 @@ impl KeyKind {
         }
     }
     pub fn is_rsa(self) -> bool {
-        matches!(self, KeyKind::Rsa2048 | KeyKind::Rsa3072 | KeyKind::Rsa4096 | KeyKind::Rsa1024 | KeyKind::Rsa6144 | KeyKind::Rsa8192)
+        matches!(self, KeyKind::Rsa2048 | KeyKind::Rsa3072 | KeyKind::Rsa4096 | KeyKind::Rsa1024 | KeyKind::Rsa6144 | KeyKind::Rsa8192 | KeyKind::Rsa2047)
     }
     /// Keys left to the thorough tier where signing cost matters.
     pub fn is_slow(self) -> bool {
@@ -57,7 +60,7 @@ impl KeyKind {
     /// Does this back end load and sign with keys of this kind at all?
     pub fn backend_kind_ok(self) -> bool {
         if cfg!(feature = "aws") {
-            self != KeyKind::Rsa1024
+            !matches!(self, KeyKind::Rsa1024 | KeyKind::Rsa2047)
         } else {
             !matches!(self, KeyKind::P521 | KeyKind::Rsa1024 | KeyKind::Rsa6144 | KeyKind::Rsa8192)
         }
@@ -114,6 +117,8 @@ pub fn load_zoo() -> Vec<ZooKey> {
             KeyKind::P384
         } else if n.starts_with("p521") {
             KeyKind::P521
+        } else if n.starts_with("rsa2047") {
+            KeyKind::Rsa2047
         } else if n.starts_with("rsa2048") {
             KeyKind::Rsa2048
         } else if n.starts_with("rsa3072") {
